@@ -30,15 +30,16 @@ def shouldNotifyPeer (t : Unit) (reason : Nat) : Bool :=
 end ctunnel.Tunnel
 
 namespace Skel
-def Bridge_Close : List String := ["sourceConnMu.Lock", "sourceForwarder.Close", "sourceConnMu.Unlock", "tunnelConnMu.Lock", "targetForwarder.Close", "sourceTunnelConn.Close", "targetTunnelConn.Close", "sourceConn.Close", "targetConn.Close", "sourceStream.Close", "targetStream.Close", "tunnelConnMu.Unlock", "ManagerBase.Close"]
 def Bridge_cleanup : List String := ["reportTrafficStats", "quotaEnforcer.UnregisterMeter", "ReleaseCrossNodeConnection"]
 def Bridge_reportTrafficStats : List String := ["reportMu.Lock", "reportMu.Unlock", "bytesSent.Load", "bytesReceived.Load", "lastReportedSent.Load", "lastReportedReceived.Load", "cloudControl.GetPortMapping", "cloudControl.UpdatePortMappingStats", "lastReportedSent.Store", "lastReportedReceived.Store"]
+def C16_Bridge_Close : List String := ["sourceConnMu.Lock", "sourceForwarder.Close", "sourceConnMu.Unlock", "tunnelConnMu.Lock", "targetForwarder.Close", "sourceTunnelConn.Close", "targetTunnelConn.Close", "sourceConn.Close", "targetConn.Close", "sourceStream.Close", "targetStream.Close", "tunnelConnMu.Unlock", "ManagerBase.Close"]
 def Dispose_Close : List String := ["currentLock.Lock", "currentLock.Unlock", "cancel", "runCleanHandlers"]
 def Dispose_runCleanHandlers : List String := ["linkLock.Lock", "copy", "linkLock.Unlock", "handler"]
 def StreamProcessor_acquireReadLock : List String := ["readLock.Lock", "Dispose.IsClosed", "readLock.Unlock", "readLock.Unlock"]
 def StreamProcessor_acquireWriteLock : List String := ["writeLock.Lock", "Dispose.IsClosed", "writeLock.Unlock", "writeLock.Unlock"]
 def StreamProcessor_onClose : List String := ["bufferMgr.Close", "closer.Close", "closer.Close", "closer.Close", "closer.Close"]
 def Tunnel_Close : List String := ["state.Load", "state.CompareAndSwap", "Dispose.Close", "localConn.Close", "tunnelRWC.Close", "shouldNotifyPeer", "sendCloseNotification", "manager.UnregisterTunnel", "onClosed", "state.Store"]
+def Tunnel_Start : List String := ["SetCtx", "manager.Ctx", "state.CompareAndSwap", "corelog.Infof", "monitorPeerNotification", "monitorTimeout", "runDataCopy"]
 end Skel
 
 end Gen
